@@ -21,12 +21,14 @@ vars == <<mode, N, k, j>>
 Init == \/ /\ mode = "tail" /\ N \in 3 .. TailNMax /\ k \in -(N - 1) .. (N - 1) /\ j = -1
         \/ /\ mode = "pairs" /\ N \in NMin .. NMax /\ k \in 1 .. 2 ^ (N - 1) - 1 /\ j = -1
         \/ /\ mode = "shift" /\ N \in 3 .. 32 /\ k \in -(N - 2) .. (N - 2) /\ j = -1
+        \/ /\ mode = "dtail" /\ N \in 3 .. TailNMax /\ k \in -(N - 1) .. (N - 1) /\ j = -1
         \/ /\ mode = "lat" /\ N \in LatN /\ k \in 0 .. 4 * (N - 1) - 1 /\ j = -1
 Next == /\ j = -1
         /\ \/ mode = "tail" /\ j' \in 0 .. 255
            \/ mode = "pairs" /\ j' \in 0 .. 2 ^ N - 1
            \/ mode = "shift" /\ j' \in 0 .. 2 * (N - 2)
            \/ mode = "lat" /\ j' \in 0 .. 4 * (N - 1) - 1
+           \/ mode = "dtail" /\ j' \in 0 .. 511
         /\ UNCHANGED <<mode, N, k>>
 Spec == Init /\ [][Next]_vars
 
@@ -85,6 +87,23 @@ LatB == LET a == LatPat(k)  b == LatPat(j)
            /\ AlgoAddE2(N, Neg(N, a), b) = PAdd(N, 2, Neg(N, a), b)
            /\ AlgoAddSameE2(N, Neg(N, a), Neg(N, b)) = PAdd(N, 2, Neg(N, a), Neg(N, b))
 LatOk == j = -1 \/ mode # "lat" \/ LatB
+
+\* ---- DTail: the 32-bit tail of div for every width: j encodes ex (2 bits), the remainder flag and a subset of six
+\* positions of the 30-bit quotient fraction (lsb, guard, the bit below, bit 0, the lowest bit that survives
+\* `>> reg + 2`, the top bit)
+DG == 33 - N + Reg
+DPos == <<DG + 1, DG, DG - 1, 0, Reg + 2, 29>>
+DPosOk(i) == DPos[i] >= 0 /\ DPos[i] <= 29 /\ \A h \in 1 .. i - 1 : DPos[h] # DPos[i]
+RECURSIVE DSumF(_)
+DSumF(i) == IF i = 0 THEN <<>>
+            ELSE IF (j \div 8) \div (2 ^ (i - 1)) % 2 = 1 /\ DPosOk(i) THEN Add(DSumF(i - 1), Pow2(DPos[i])) ELSE DSumF(i - 1)
+DTailB == LET ex == j % 4
+              rz == (j \div 4) % 2 = 1
+              F  == DSumF(6)
+              w  == DivTailE2(N, k, ex, F, rz)
+          IN /\ Shr(w, 32 - N) = RoundMag(N, 2, Add(Pow2(30), F), 4 * k + ex - 30, rz)
+             /\ Low(w, 32 - N) = <<>>
+DTailOk == j = -1 \/ mode # "dtail" \/ DTailB
 
 TailOk  == j = -1 \/ mode # "tail"  \/ TailB
 PairsOk == j = -1 \/ mode # "pairs" \/ PairsB
